@@ -24,10 +24,14 @@ type c20lcase struct {
 	cmd    c01cmd
 	down   time.Duration // how long the link stays down (-1: for the rest of the run)
 	before time.Duration // it goes down that long after the probe left
+	// backlog: the link stays up; two frames that the filter rejects are queued on the socket before the
+	// filter is attached (an AF_PACKET socket queues everything from its creation on), then nothing comes
+	// for many poll timeouts: no read fails, nothing is to be reported
+	backlog bool
 }
 
 func (k c20lcase) String() string {
-	return fmt.Sprintf("%s link-down-after=%v for=%v", k.cmd.name, k.before, k.down)
+	return fmt.Sprintf("%s link-down-after=%v for=%v rejected-backlog=%v", k.cmd.name, k.before, k.down, k.backlog)
 }
 
 func c20lbuild(k c20lcase) (*vE2ESpec, *int64) {
@@ -40,6 +44,34 @@ func c20lbuild(k c20lcase) (*vE2ESpec, *int64) {
 	sc.Horizon = 2000000
 	reply := c15reply(k.cmd, false)
 	injected := new(int64)
+	if k.backlog {
+		// a frame of another protocol family than the scan listens for
+		other := c01cmds[0] // arp
+		if k.cmd.kind == "arp" {
+			other = c01cmds[2] // tcp
+		}
+		junk := c15reply(other, false)
+		world := sc.World
+		sc.World = func(w *zzvenv.World) {
+			if world != nil {
+				world(w)
+			} else {
+				vDefaultWorld(w)
+			}
+			w.OnOpen = func(*zzvenv.TPacket) {
+				zzvenv.Inject(junk)
+				zzvenv.Inject(junk)
+			}
+		}
+		sc.Net = func(r *vE2ERun) {
+			vs.Block("probe-left", func() bool { return len(zzvenv.W.Written) >= 1 }, func() {})
+			time.Sleep(150 * time.Millisecond)
+			if zzvenv.Inject(reply) > 0 {
+				*injected = vs.VNow()
+			}
+		}
+		return sc, injected
+	}
 	sc.Net = func(r *vE2ERun) {
 		vs.Block("probe-left", func() bool { return len(zzvenv.W.Written) >= 1 }, func() {})
 		time.Sleep(k.before)
@@ -90,6 +122,9 @@ func c20lcheck(k c20lcase, run *vE2ERun, x *vs.Exec, injected *int64) (class, ms
 	if min < 1 {
 		min = 1
 	}
+	if k.backlog {
+		min, max, downFor = 0, 0, 0
+	}
 	if polls < min || polls > max {
 		return "reports", fmt.Sprintf("the link was down for %v: every read in that time fails with \"packet poll failed\" and is retried after a 5ms pause, so %d..%d error records are due; got %d", downFor, min, max, polls)
 	}
@@ -98,7 +133,7 @@ func c20lcheck(k c20lcase, run *vE2ERun, x *vs.Exec, injected *int64) (class, ms
 	}
 	lines, complete := run.vStdoutLines()
 	want := 0
-	if k.down >= 0 && *injected > 0 && *injected < end {
+	if (k.down >= 0 || k.backlog) && *injected > 0 && *injected < end {
 		want = 1
 	}
 	if !complete || len(lines) != want {
@@ -109,13 +144,29 @@ func c20lcheck(k c20lcase, run *vE2ERun, x *vs.Exec, injected *int64) (class, ms
 
 func verifC20Link(c *drv.Ctx) {
 	defer vE2ECleanup()
-	c.R.Rule = "the packet-scan commands end to end while the link goes down (reads fail with afpacket.ErrPoll for as long as it is down): " +
+	c.R.Rule = "the packet-scan commands end to end with two frames the filter rejects queued on the socket before the filter is attached and then silence for many poll timeouts (no read fails: no error record; the reply 150 ms later is reported), and while the link goes down (reads fail with afpacket.ErrPoll for as long as it is down): " +
 		"each failed read is reported and retried after the 5ms pause (between downtime/5ms-1 and downtime/5ms+2 error records, never a busy loop), a reply that arrives after the link is back is reported, and the command returns when the exit delay is over. non-trivial = case"
 	idx := 0
 	var explore []c20lcase
 	for _, cmd := range c01cmds {
 		if cmd.kind == "app" {
 			continue
+		}
+		{
+			k := c20lcase{cmd: cmd, backlog: true}
+			idx++
+			if c.Mine(idx) && !c.Expired() {
+				sc, inj := c20lbuild(k)
+				run, x := vE2EOnce(sc)
+				c.Eval(1)
+				c.Nontrivial(1)
+				c.R.Transitions += int64(x.Steps)
+				if class, msg := c20lcheck(k, run, x, inj); class != "" {
+					c.Fail(fmt.Sprintf("linkdown:%s:backlog:%s", cmd.name, class), k.String()+": "+msg, map[string]any{"part": "c20link", "args": sc.Args, "case": k.String()})
+				} else {
+					c.Outcome(fmt.Sprintf("%s/backlog/errors=%d", cmd.kind, len(run.vErrRecords())))
+				}
+			}
 		}
 		for _, down := range []time.Duration{12 * time.Millisecond, 100 * time.Millisecond, -1} {
 			for _, before := range []time.Duration{0, 20 * time.Millisecond} {
